@@ -29,7 +29,18 @@ for sid in sorted(os.listdir("/verif/seeded")):
         rows.append((sid, d))
 for sid, d in rows:
     print(f"* **{sid}** - {d}")
-print(f"\n{len(rows)} of {len([s for s in os.listdir('/verif/seeded') if os.path.exists(f'/verif/seeded/{s}/meta.json')])} seeded changes were missed at first; all are detected now (see 9.5).")
+missed = []
+for sid in sorted(os.listdir("/verif/seeded")):
+    mp = f"/verif/seeded/{sid}/meta.json"
+    if os.path.exists(mp):
+        d = json.load(open(mp)).get("detected_by", "")
+        if d.startswith("NOT DETECTED"):
+            missed.append((sid, d))
+if missed:
+    print("\nSeeded changes that no check detects (limits of the oracles, kept on record rather than papered over):\n")
+    for sid, d in missed:
+        print(f"* **{sid}** - {d}")
+print(f"\n{len(rows)} of {len([s for s in os.listdir('/verif/seeded') if os.path.exists(f'/verif/seeded/{s}/meta.json')])} seeded changes were missed at first and are detected now (see 9.5); {len(missed)} is not detected.")
 PY
 } > DESIGN.md
 wc -l DESIGN.md
